@@ -95,6 +95,7 @@ def is_tuple(v):
     return isinstance(v, tuple)
 
 
+REAL_NUMPY = {"ones", "zeros", "size", "arange", "linspace", "shape", "mgrid", "isinf", "isnan", "argmax", "argmin", "histogram", "floor", "ceil"}
 SEQ_APPS = {"seq", "comp", "repeat", "concat", "list", "shape", "range", "zip"}
 # items of tuple-returning repo functions that are themselves sequences: {fn-app name: {index, ...}} (registered by rule modules
 # after they have confirmed from the source that these return elements are built with tuple(...))
@@ -314,7 +315,18 @@ class VN:
                 return T.power(a, fr)
             return T.app("pow", a, b)
         if isinstance(op, ast.MatMult):
-            return T.app("matmul", a, b)
+            # bilinearity: constant factors of single-term operands move out of the product
+            coef = T.const(1)
+            ops = []
+            for v in (a, b):
+                if len(v.t) == 1:
+                    (m, c), = v.t.items()
+                    if c != T.ONE and len(m) > 0:
+                        coef = T.mul(coef, T.Poly({frozenset(): c}))
+                        v = T.Poly({m: T.ONE})
+                ops.append(v)
+            r = T.app("matmul", ops[0], ops[1])
+            return r if coef == T.const(1) else T.mul(coef, r)
         if isinstance(op, ast.FloorDiv):
             fa, fb = a.as_fraction(), b.as_fraction()
             if fa is not None and fb is not None and fb != 0:
@@ -665,6 +677,8 @@ class VN:
         if k is not None and isinstance(st.env.get(k), T.Poly) and name is None:
             # callee is a value held in a variable (bound comprehension variable, user callable passed in)
             return T.app("callv", st.env[k], *allargs)
+        if (name or "").startswith("numpy.") and short in REAL_NUMPY:
+            return T.app("call:" + label, *allargs, real=True)
         return T.app("call:" + label, *allargs)
 
     def bind_values(self, target, call, st, cache=None):
